@@ -3,13 +3,13 @@ module verif/harness
 go 1.26.8
 
 require (
+	github.com/bmatcuk/doublestar/v4 v4.8.1
 	github.com/go-jose/go-jose/v4 v4.0.5
 	github.com/zitadel/oidc/v3 v3.0.0
 	golang.org/x/text v0.24.0
 )
 
 require (
-	github.com/bmatcuk/doublestar/v4 v4.8.1 // indirect
 	github.com/go-chi/chi/v5 v5.2.1 // indirect
 	github.com/go-logr/logr v1.4.2 // indirect
 	github.com/go-logr/stdr v1.2.2 // indirect
